@@ -7,26 +7,35 @@ Local Open Scope Z_scope.
 Ltac Zify.zify_post_hook ::= Z.to_euclidean_division_equations.
 
 (* ------------------------------------------------------------------ the client on a well-formed stream *)
+Lemma read_record_gen (a b data rest : list byte) count width :
+  len a = 8 -> len b = 4 -> le_decode a = count -> le_decode b = width -> len data = count * width ->
+  read_record (a ++ b ++ data ++ rest) = Some (mkRec count width data, rest).
+Proof.
+  intros L8 L4 Da Db Hd. unfold read_record.
+  pose proof (len_nonneg data) as Hd0. pose proof (len_nonneg rest) as Hr0.
+  destruct (len (a ++ b ++ data ++ rest) <? 12) eqn:E.
+  { rewrite !len_app in E. lia. }
+  rewrite (take_app_exact a _ 8) by lia.
+  rewrite (drop_app_exact a _ 8) by lia.
+  rewrite (take_app_exact b _ 4) by lia.
+  rewrite Da, Db.
+  replace (a ++ b ++ data ++ rest) with ((a ++ b) ++ data ++ rest) by (rewrite <- app_assoc; reflexivity).
+  rewrite (drop_app_exact (a ++ b) _ 12) by (rewrite len_app; lia).
+  destruct (len (data ++ rest) <? count * width) eqn:E2.
+  { rewrite len_app in E2. lia. }
+  rewrite (take_app_exact data) by lia. rewrite (drop_app_exact data) by lia. reflexivity.
+Qed.
+
 Lemma read_record_frame count width data rest :
   0 <= count < 18446744073709551616 -> 0 <= width < 4294967296 -> len data = count * width ->
   read_record (le_encode 8 count ++ le_encode 4 width ++ data ++ rest) = Some (mkRec count width data, rest).
 Proof.
-  intros Hc Hw Hd. unfold read_record.
-  pose proof (len_nonneg data) as Hd0. pose proof (len_nonneg rest) as Hr0.
-  assert (L8 : len (le_encode 8 count) = 8) by (rewrite len_le_encode; reflexivity).
-  assert (L4 : len (le_encode 4 width) = 4) by (rewrite len_le_encode; reflexivity).
-  destruct (len (le_encode 8 count ++ le_encode 4 width ++ data ++ rest) <? 12) eqn:E.
-  { rewrite !len_app in E. lia. }
-  rewrite (take_app_exact (le_encode 8 count)) by lia.
-  rewrite (drop_app_exact (le_encode 8 count)) by lia.
-  rewrite (take_app_exact (le_encode 4 width)) by lia.
-  rewrite le64_roundtrip by lia. rewrite le32_roundtrip by lia.
-  replace (le_encode 8 count ++ le_encode 4 width ++ data ++ rest)
-    with ((le_encode 8 count ++ le_encode 4 width) ++ data ++ rest) by (rewrite <- app_assoc; reflexivity).
-  rewrite (drop_app_exact (le_encode 8 count ++ le_encode 4 width)) by (rewrite len_app; lia).
-  destruct (len (data ++ rest) <? count * width) eqn:E2.
-  { rewrite len_app in E2. lia. }
-  rewrite (take_app_exact data) by lia. rewrite (drop_app_exact data) by lia. reflexivity.
+  intros Hc Hw Hd. apply read_record_gen.
+  - rewrite len_le_encode; reflexivity.
+  - rewrite len_le_encode; reflexivity.
+  - apply le64_roundtrip; exact Hc.
+  - apply le32_roundtrip; exact Hw.
+  - exact Hd.
 Qed.
 
 (* ------------------------------------------------------------------ arithmetic of columns *)
@@ -72,11 +81,12 @@ Lemma count_loop_ok afs f : forall N w,
 Proof.
   induction afs as [|af t IH]; intros N w H; cbn [count_loop map zsum fold_right].
   - f_equal. f_equal. lia.
-  - unfold col_of at 1. destruct (lookup f af) as [c|] eqn:E; [|exfalso; apply (H af); [left; reflexivity|exact E]].
+  - destruct (lookup f af) as [c|] eqn:E; [|exfalso; apply (H af); [left; reflexivity|exact E]].
+    assert (Hc : col_of f af = c) by (unfold col_of; rewrite E; reflexivity).
     rewrite IH by (intros; apply H; right; assumption).
     f_equal. f_equal.
-    + unfold zsum. unfold col_of at 2. rewrite E. lia.
-    + destruct t as [|af2 t2]; [cbn [last]; unfold col_of; rewrite E; reflexivity|reflexivity].
+    + rewrite Hc. unfold zsum. lia.
+    + destruct t as [|af2 t2]; [cbn [last]; rewrite Hc; reflexivity|reflexivity].
 Qed.
 
 Lemma payload_loop_ok afs f : forall out,
@@ -86,8 +96,9 @@ Proof.
   induction afs as [|af t IH]; intros out H; cbn [payload_loop].
   - unfold field_data; cbn. rewrite app_nil_r. reflexivity.
   - destruct (lookup f af) as [c|] eqn:E; [|exfalso; apply (H af); [left; reflexivity|exact E]].
+    assert (Hc : col_of f af = c) by (unfold col_of; rewrite E; reflexivity).
     rewrite IH by (intros; apply H; right; assumption).
-    unfold field_data; cbn [map concat]. unfold col_of at 2. rewrite E. rewrite <- app_assoc. reflexivity.
+    unfold field_data; cbn [map concat]. rewrite Hc. rewrite <- app_assoc. reflexivity.
 Qed.
 
 Lemma io_loop_ok afs fields : forall w out,
@@ -148,7 +159,7 @@ Proof.
   rewrite forallb_forall in Hok. unfold same_width in Hsw. rewrite forallb_forall in Hsw.
   destruct (data_len afs f (field_width afs f)) as [Hl Hn].
   { intros af Ha. split; [apply Hok; exact Ha|]. specialize (Hsw af Ha). lia. }
-  unfold field_data, field_count. split; [lia|]. split; [|exact Hl].
+  unfold field_data, field_count in *. split; [lia|]. split; [|exact Hl].
   destruct afs as [|a0 t]; [discriminate|].
   assert (Hin : In (last (a0 :: t) []) (a0 :: t)).
   { destruct (exists_last (l := a0 :: t) ltac:(discriminate)) as (l' & x & E). rewrite E. rewrite last_last.
